@@ -13,6 +13,7 @@ last spend is dropped — which is a hypothesis of the ★ version and is proved
 import DPL.Model.Charged
 import DPL.Model.PlanTools
 import DPL.Proofs.Charged
+import DPL.Proofs.ChargeIR
 import Mathlib.Tactic.FieldSimp
 import Mathlib.Tactic.NormNum
 
@@ -244,6 +245,98 @@ theorem multi_quantile_charge (w : World ℝ) (explicit : Option Nat) (ε : ℝ)
   refine ⟨h.1, h.2, ?_⟩
   simp [List.map_replicate, List.sum_replicate]
   field_simp
+
+
+/-! ## static charge skeletons (translator tie: `DPL/Generated/C09Charges.lean` is regenerated from /repo's AST on every
+run and `wellCharged sk_<entry> = true` is decided for every public tool, `wellChargedM` for every estimator method that
+touches `self.accountant`, `ctorResolves` for every estimator `__init__`) -/
+
+section static
+open DPL.ChargeIR
+
+/-- static_skeleton_sound: the boolean the generated obligations decide is meaningful.  If `wellCharged sk` then EVERY
+path through the skeleton (any number of iterations of every loop) leaves the function by an explicit return / raise and
+consists of `resolve`s followed by exactly one of the shapes of `ChargeIR.Tail`:
+  direct      `check(ε, d)` on the own, RESOLVED accountant · only noise (mechanisms / sub-queries on throw-away
+              accountants) · `spend(ε, d)` — same expressions, same accountant · exit        (nothing else: no noise before
+              the check, none after the spend, no second spend, no delegation)
+  unreleased  `check(ε, d)` then `return self` / `raise` with no noise drawn
+  refused     `raise` before anything
+  delegated   ONE call handing on the own accountant and the own ε, then exit (no own spend, no noise)
+  cells       `_check_cells` for `n` spends of `ce` sharing out ε, then only cell queries on the own accountant. -/
+theorem static_skeleton_sound {sk : Sk} (h : wellCharged sk = true) (k : Nat) :
+    ∀ p ∈ runs k sk, p.2 = true ∧ ∃ rs tail res, p.1 = rs ++ tail ∧ (∀ v ∈ rs, v = .resolve) ∧
+      (res = true → rs ≠ []) ∧ Tail res tail := by
+  intro p hp
+  obtain ⟨h1, rs, tail, res, h2, h3, h4, h5⟩ := wellChargedFrom_sound (r := false) h k p hp
+  exact ⟨h1, rs, tail, res, h2, h3, fun hr => (h4 hr).resolve_left (by simp), h5⟩
+
+/-- the same for estimator methods (`self.accountant` resolved by `__init__`, obligation `ctorResolves`) -/
+theorem static_skeleton_sound_method {sk : Sk} (h : wellChargedM sk = true) (k : Nat) :
+    ∀ p ∈ runs k sk, p.2 = true ∧ ∃ rs tail res, p.1 = rs ++ tail ∧ (∀ v ∈ rs, v = .resolve) ∧ Tail res tail := by
+  intro p hp
+  obtain ⟨h1, rs, tail, res, h2, h3, _, h5⟩ := wellChargedFrom_sound (r := true) h k p hp
+  exact ⟨h1, rs, tail, res, h2, h3, h5⟩
+
+/-- the form asked for by the property text, for every path on which noise is drawn: resolve first, then
+`pre ++ [check ε d] ++ mids ++ [spend ε d] ++ [exit]` with only `resolve`s in `pre` and only noise in `mids` -/
+theorem static_skeleton_noise_is_charged {sk : Sk} (h : wellCharged sk = true) (k : Nat) (p : List Ev × Bool)
+    (hp : p ∈ runs k sk) (hn : ∃ v ∈ p.1, v.mechlike = true) :
+    ∃ pre d mids x, p.1 = pre ++ [.check true epsP d] ++ mids ++ [.spend true epsP d] ++ [x] ∧ pre ≠ [] ∧
+      (∀ v ∈ pre, v = .resolve) ∧ (∀ v ∈ mids, v.mechlike = true) ∧ x.isExit = true := by
+  obtain ⟨_, rs, tail, res, h2, h3, h4, h5⟩ := static_skeleton_sound h k p hp
+  obtain ⟨v, hv, hm⟩ := hn
+  rw [h2] at hv
+  have hrs : v ∉ rs := fun hin => by rw [h3 v hin] at hm; simp [Ev.mechlike] at hm
+  have hv' : v ∈ tail := (List.mem_append.mp hv).resolve_left hrs
+  cases h5 with
+  | direct d mids x hr hmids hx =>
+    exact ⟨rs, d, mids, x, by simp [h2], h4 hr, h3, hmids, hx⟩
+  | unreleased d x hr hx =>
+    rcases hx with rfl | rfl <;> simp at hv' <;> (rcases hv' with rfl | rfl <;> simp [Ev.mechlike] at hm)
+  | refused => simp at hv'; subst hv'; simp [Ev.mechlike] at hm
+  | delegated x hx =>
+    simp at hv'
+    rcases hv' with rfl | rfl
+    · simp [Ev.mechlike] at hm
+    · cases v <;> simp [Ev.mechlike, Ev.isExit] at hm hx
+  | cells ce n calls x hs hall hx =>
+    simp at hv'
+    rcases hv' with rfl | hc | rfl
+    · simp [Ev.mechlike] at hm
+    · obtain ⟨e', rfl, _⟩ := hall v hc
+      simp [Ev.mechlike] at hm
+    · cases v <;> simp [Ev.mechlike, Ev.isExit] at hm hx
+
+/-- the skeleton generated for `tools.utils._mean` at HEAD (expression 2 is the literal `0`, mechanism 1 is
+`LaplaceTruncated`, 0 is `.randomise(`) -/
+def skMean : Sk := Sk.block [
+  .branch (Sk.block [.atom (.call true (.atom 0)), .atom (.ret false)]) .skip,
+  .atom .resolve, .atom (.check true (.atom 0) (.atom 2)), .atom (.mech 1), .atom (.mech 0),
+  .atom (.spend true (.atom 0) (.atom 2)), .atom (.ret false)]
+
+/-- non-vacuity: the hypothesis holds for it, it has a path that draws noise and a delegating path; -/
+example : wellCharged skMean = true ∧ (∃ p ∈ runs 1 skMean, ∃ v ∈ p.1, v.mechlike = true) ∧
+    ([Ev.call true epsP, .ret false], true) ∈ runs 1 skMean := by decide
+
+/-- … and the checker refuses: the spend moved before the mechanism, `spend(epsilon / 2)`, a spend on another accountant,
+the check after the mechanism, a missing spend on an early return, a second charge after delegating. -/
+example :
+    wellCharged (Sk.block [.atom .resolve, .atom (.check true epsP (.atom 2)), .atom (.spend true epsP (.atom 2)),
+      .atom (.mech 0), .atom (.ret false)]) = false ∧
+    wellCharged (Sk.block [.atom .resolve, .atom (.check true epsP (.atom 2)), .atom (.mech 0),
+      .atom (.spend true (.div epsP (.atom 5)) (.atom 2)), .atom (.ret false)]) = false ∧
+    wellCharged (Sk.block [.atom .resolve, .atom (.check true epsP (.atom 2)), .atom (.mech 0),
+      .atom (.spend false epsP (.atom 2)), .atom (.ret false)]) = false ∧
+    wellCharged (Sk.block [.atom .resolve, .atom (.mech 0), .atom (.check true epsP (.atom 2)),
+      .atom (.spend true epsP (.atom 2)), .atom (.ret false)]) = false ∧
+    wellCharged (Sk.block [.atom .resolve, .atom (.check true epsP (.atom 2)),
+      .branch (.atom (.ret false)) .skip, .atom (.mech 0), .atom (.spend true epsP (.atom 2)),
+      .atom (.ret false)]) = false ∧
+    wellCharged (Sk.block [.atom (.call true epsP), .atom .resolve, .atom (.spend true epsP (.atom 2)),
+      .atom (.ret false)]) = false := by decide
+
+end static
 
 /-! ## non-vacuity -/
 
